@@ -34,10 +34,10 @@ type c09case struct {
 	Tasks []c09task `json:"tasks"`
 	Req   []string  `json:"req"`
 	Flags []string  `json:"flags"`
-	Prior bool      `json:"prior_success"` // every task has succeeded on these inputs before the failing (forced) run
-	Clean bool      `json:"via_clean"`     // the last task is named clean and is run through `spok --clean`
-	Deflt bool      `json:"via_default"`   // the last task is named default and is run by giving no task names
-	Env   int       `json:"ambient_env"`   // core.HostileEnv variant
+	Prior bool      `json:"prior_success"`              // every task has succeeded on these inputs before the failing (forced) run
+	Clean bool      `json:"via_clean"`                  // the last task is named clean and is run through `spok --clean`
+	Deflt bool      `json:"via_default"`                // the last task is named default and is run by giving no task names
+	Env   int       `json:"ambient_env"`                // core.HostileEnv variant
 	Edit  bool      `json:"edited_after_prior_success"` // after the prior success every dependency file is edited, then the run fails on the new content
 }
 
@@ -49,7 +49,8 @@ func c09Gen(r *core.Rng) c09case {
 	n := r.Range(1, 4)
 	var k c09case
 	for i := 0; i < n; i++ {
-		t := c09task{Name: c09Names[i], File: core.Pick(r, []string{"dep.txt", "other.txt", c09Names[i] + ".txt"})}
+		// ("/dep.txt": a leading slash still means the file next to the spokfile)
+		t := c09task{Name: c09Names[i], File: core.Pick(r, []string{"dep.txt", "other.txt", c09Names[i] + ".txt", "/dep.txt"})}
 		for j := 0; j < i; j++ {
 			if r.Chance(40) {
 				t.Deps = append(t.Deps, c09Names[j])
@@ -70,7 +71,7 @@ func c09Gen(r *core.Rng) c09case {
 		t := &k.Tasks[r.Intn(len(k.Tasks))]
 		c := &t.Cmds[r.Intn(len(t.Cmds))]
 		c.Fail = true
-		c.Form = core.Pick(r, []string{"exit", "exit", "false", "missing", "sh", "signal"})
+		c.Form = core.Pick(r, []string{"exit", "exit", "false", "missing", "sh", "signal", "noexec", "badinterp"})
 		// (statuses that shells, CI systems and test runners give a meaning to: 126/127 not executable/found,
 		// 128+n signals - 130 INT, 137 KILL, 141 PIPE, 143 TERM -, 125 git-bisect skip, 77 automake skip, 75 tempfail)
 		c.Status = core.Pick(r, []int{1, 2, 3, 127, 255, 126, 128, 130, 137, 141, 143, 125, 77, 75, 64, 254, r.Range(1, 255), r.Range(1, 255)})
@@ -81,6 +82,8 @@ func c09Gen(r *core.Rng) c09case {
 			c.Status = 127
 		case "signal":
 			c.Status = 137
+		case "noexec", "badinterp":
+			c.Status = 126
 		}
 	}
 	// request: the last task (pulls in dependencies) or a random subset
@@ -157,6 +160,12 @@ func (k c09case) text(sb *sandbox) string {
 				case "signal":
 					// the child shell kills itself: the command ends by signal, not by exit
 					body = fmt.Sprintf("test ! -e %s || sh -c 'kill -9 $$'", flag)
+				case "noexec":
+					// a program that exists but may not be executed
+					body = fmt.Sprintf("test ! -e %s || %s/noexec.sh", flag, sb.Proj)
+				case "badinterp":
+					// a script whose interpreter does not exist: the program cannot be started
+					body = fmt.Sprintf("test ! -e %s || %s/badinterp.sh", flag, sb.Proj)
 				}
 			}
 			fmt.Fprintf(&b, "    printf '%%s\\n' %s.%d.start >> %s && %s && printf '%%s\\n' %s.%d.ok >> %s\n", t.Name, i, sb.Log, body, t.Name, i, sb.Log)
@@ -220,6 +229,8 @@ func c09Judge(c *core.Ctx, k c09case, res *core.ShardResult) (vs []core.Violatio
 	for _, f := range []string{"dep.txt", "other.txt"} {
 		_ = os.WriteFile(filepath.Join(sb.Proj, f), []byte(f), 0o644)
 	}
+	_ = os.WriteFile(filepath.Join(sb.Proj, "noexec.sh"), []byte("#!/bin/sh\nexit 0\n"), 0o644)
+	_ = os.WriteFile(filepath.Join(sb.Proj, "badinterp.sh"), []byte("#!/nonexistent/interpreter-verif\nexit 0\n"), 0o755)
 	for _, t := range k.Tasks {
 		_ = os.WriteFile(filepath.Join(sb.Proj, t.File), []byte(t.File), 0o644)
 		for i, cmd := range t.Cmds {
